@@ -281,8 +281,8 @@ m("C13", "escape-not-padded-before-digit", "src/generator/utils.rs",
 m("C13", "quote-inside-not-escaped", "src/generator/utils.rs",
   "            if character == quote_symbol {\n                quoted.push('\\\\');", "            if false && character == quote_symbol {\n                quoted.push('\\\\');",
   "C13.strings|")
-m("C13", "long-bracket-level-off-by-one", "src/generator/utils.rs",
-  "let mut i: usize = value.ends_with(b\"]\").into();", "let mut i: usize = 0;",
+m("C13", "long-bracket-closer-completed-by-value-end", "src/generator/utils.rs",
+  "if value.find(&equals).is_none() && !value.ends_with(&equals[..equals.len() - 1]) {", "if value.find(&equals).is_none() {",
   "C13.strings|DenseLuaGenerator|roundtrip")
 m("C13", "long-bracket-leading-newline-lost", "src/generator/utils.rs",
   "let needs_extra_new_line = if value.starts_with(b\"\\n\") { \"\\n\" } else { \"\" };", "let needs_extra_new_line = \"\";",
